@@ -82,7 +82,53 @@ def gen_invalid_write(rng, p):
     return "NoSuchTag.x", 1, "unknown tag"
 
 
+def run_index_field_edge(ctx, model):
+    """array indexes around the largest number a request path can carry (a 32-bit member segment): 2**32 - 1 is sent
+    and refused by the controller (falsy Tag, the neighbour unaffected); 2**32 and beyond cannot be encoded — the
+    property wants a falsy Tag with an error for that request and the neighbour's result untouched"""
+    from props.c04 import sized_project
+    rng = ctx.rng
+    p = sized_project(rng, [(40, "arr"), (8, "d1")])
+    sess = lx.Session(model, p, conn_large=rng.random() < 0.5)
+    if sess.open_error is not None:
+        sess.close()
+        return
+    calls = []
+    for idx in (2 ** 32 - 1, 2 ** 32, 2 ** 32 + 1, 99999999999, 2 ** 64):
+        calls.append(("read", ["arr[%d]" % idx, "d1"]))
+        calls.append(("read", ["d1", "arr[%d]" % idx]))
+        calls.append(("read", ["arr[%d]" % idx]))
+        calls.append(("write", [("arr[%d]" % idx, 1), ("d1", 2)]))
+    for kind, args in calls:
+        ctx.case("index-field-edge", ("ife", kind, repr(args)))
+        case = {"call": "%s(%s)" % (kind, ", ".join(repr(a) for a in args))}
+        try:
+            res = core.with_budget(60, sess.d.read if kind == "read" else sess.d.write, *args)
+        except BaseException as e:  # noqa
+            if isinstance(e, (KeyboardInterrupt, SystemExit)):
+                raise
+            big = any(int(str(a if kind == "read" else a[0]).split("[")[1].rstrip("]")) >= 2 ** 32
+                      for a in args if "[" in str(a if kind == "read" else a[0]))
+            sig = "call-raises:%s:index-beyond-the-32-bit-path-field" % core.exn_class(e) if big and core.exn_class(e) == "data" \
+                else "%s-raises:%s" % (kind, core.exn_class(e).split(":")[-1])
+            ctx.violation(sig, case, repr(e)[:200])
+            continue
+        rl = res if isinstance(res, list) else [res]
+        if len(rl) != len(args):
+            ctx.violation("result-count", case, "%d results for %d requests" % (len(rl), len(args)))
+            continue
+        for a, t in zip(args, rl):
+            name = a if kind == "read" else a[0]
+            if name.startswith("arr["):
+                if t or not t.error:
+                    ctx.violation("out-of-range-index-not-refused", case, repr(t)[:200])
+            elif not t or (kind == "read" and t.value != bytes(next(s_ for s_ in p["controller"] if s_.name == "d1").mem)[0] - (256 if bytes(next(s_ for s_ in p["controller"] if s_.name == "d1").mem)[0] > 127 else 0)):
+                ctx.violation("neighbour-of-a-refused-request-disturbed", case, repr(t)[:200])
+    sess.close()
+
+
 def run(ctx, model):
+    run_index_field_edge(ctx, model)
     from props import logixdrv
     logixdrv.run_reads(ctx, model, "C03")
     logixdrv.run_writes(ctx, model, "C03")
